@@ -1,6 +1,6 @@
 CONSTANTS MaxDepth = 1
           SeedLo = 1
-          SeedHi = 249
+          SeedHi = 247
           Keywords = {"SELECT", "FROM", "WHERE", "(", ")", ",", "NULL", "*", "AND", "1", "BY", "''"}
 INIT Init
 NEXT Next
